@@ -4,7 +4,7 @@
 (* given script tree, named through alpha by the sub-trees the real hashes *)
 (* commit to, against the BIP341 algebra of Taproot.tla.                   *)
 (***************************************************************************)
-EXTENDS TapBuilder, Json, IOUtils, SequencesExt
+EXTENDS TapBuilder, TapSpend, Json, IOUtils, SequencesExt
 
 ASSUME TLCSet(1, ndJsonDeserialize(IOEnv.TRACE))
 Rec == TLCGet(1)
@@ -51,6 +51,13 @@ JudgeEvent(ev) ==
               /\ (ev.root = Commit(tr) \/ Report("C15", "merkle_root_commits_to_other_tree", ev, <<ev.root, Commit(tr)>>))
               /\ (ev.output_key_ok \/ Report("C15", "output_key_is_not_tweak_of_internal_key", ev, ""))
               /\ (ev.spk_ok \/ Report("C15", "script_pubkey_is_not_p2tr_of_output_key", ev, ""))
+              \* L2 conformance: the spend-info machines of TapSpend.tla (checked against L1 by
+              \* MC_TapSpend) emit the same leaves with the same Merkle branches
+              /\ (\A S \in {SpendItems(ev.dl)} :
+                    (Len(ev.spend) = Len(S)
+                     /\ \A q \in 1..Len(S) : ev.spend[q].k = S[q].k
+                          /\ ev.spend[q].path = [x \in 1..Len(S[q].branch) |-> TermC(S[q].branch[x])])
+                    \/ Report("INFO", "drift_l2_tapspend", ev, ""))
               /\ (Len(ev.spend) = Len(L) \/ Report("C15", "spend_info_leaf_count", ev, <<Len(ev.spend), Len(L)>>))
               /\ (Len(ev.spend) # Len(L) \/
                   \A q \in 1..Len(L) :
